@@ -371,3 +371,76 @@ def c17_network_gate(ctx, v):
 
 def peer_ref_field(ex, peer, ctx):
     return S.Ref(S.Cell(peer.fields[ctx.field_index("Peer", "public_key")]))
+
+
+def c17_new_peer_step(ctx, v):
+    """Network::handle_new_peer (a socket was opened; nothing has been signed on it yet): whether
+    the index is new or belongs to a surviving entry of a static peer — in any previous status,
+    with or without a key from an earlier session — the entry is NOT Connected when the function
+    is done; it is Connecting, so Connected can only come from the handshake-response step on
+    this connection."""
+    from .models import mk_some, mk_none
+    ex = ctx.executor(loop_bound=3, inline="auto", max_paths=2000, no_inline=[r"find_peer_by_index_mut$", r"initiate_handshake$", r"Peer::new$", r"fmt", r"to_hex"])
+    ex.pure = [r".*"]
+    pk, _ = _opt(ex, "peer.public_key", "[u8; 33]")
+    status = ex.fresh_value("PeerStatus", "peer_status_before")
+    spc = S.EnumV("Option<PeerConfig>", None, S.I(z3.BitVec("static_peer_config.discr", 64), True))
+    existing = ctx.mk_struct(ex, "Peer", "existing", public_key=pk, peer_status=status, static_peer_config=spc)
+    fresh = ctx.mk_struct(ex, "Peer", "fresh", peer_status=S.EnumV("PeerStatus", "Disconnected", dict(ctx.enums["PeerStatus"])["Disconnected"]))
+    known = z3.Bool("index_has_an_entry")
+    inserted = []
+
+    def hook(ex_, st, callee, args, dty):
+        if re.search(r"find_peer_by_index_mut$", callee):
+            ins = [e for e in st.events if e[0] == "inserted"]
+            if ins:
+                return mk_some(dty, ins[-1][3])
+            prev = [e for e in st.events if e[0] == "entry"]
+            if prev:
+                return mk_some(dty, prev[-1][3])
+
+            def some(ex2, st2, arg):
+                ref = S.Ref(S.Cell(ex2.copy_value(existing)), (), True)
+                st2.events.append(("entry", "existing", [], ref))
+                return mk_some(dty, ref)
+            return ("__fork__", [(known, ("__thunk__", some, None)), (z3.Not(known), mk_none(dty))])
+        if re.search(r"Peer::new$", callee):
+            return ex_.copy_value(fresh)
+        if re.search(r"(?:AHashMap|HashMap)::<u64, Peer[^>]*>::insert$", callee):
+            st.events.append(("inserted", callee, args, S.Ref(S.Cell(args[2]), (), True)))
+            return mk_none(dty)
+        if re.search(r"initiate_handshake$", callee):
+            res = S.EnumV("Result<(), Error>", "Ok", None, {"Ok": S.Agg("variant", "Ok", [S.Agg("tuple", "()", [])])})
+            return S.Agg("struct", "ReadyFuture", [res])
+        return None
+    ex.on_call = hook
+    st = S.State()
+    st.pc.extend([L.enum_in_range(status, 3), L.enum_in_range(spc, 2)])
+    body, co = L.coroutine(ctx, ex, r"network::<impl at [^>]*>::handle_new_peer",
+                           [S.Ref(S.Cell(S.Opaque("network", "Network")), (), True), ex.fresh_value("u64", "peer_index"), S.EnumV("Option<String>", "None", None, {"None": S.Agg("variant", "None", [])})])
+    outs = ex.run(body, [S.Ref(S.Cell(co), (), True), S.Opaque("cx", "Context")], st)
+    v.paths += len(outs)
+    conn = dict(ctx.enums["PeerStatus"])["Connected"]
+    n = 0
+    for o in outs:
+        if o.kind in ("unsupported", "unwound", "path-limit"):
+            return v.undecided("%s %s" % (o.kind, o.info))
+        if o.kind != "return":
+            continue
+        ins = [e for e in o.events if e[0] == "inserted"]
+        ent = [e for e in o.events if e[0] == "entry"]
+        if not ins and not ent:
+            return v.undecided("no peer entry seen on a returning path")
+        target = ex.deref_value((ins or ent)[-1][3])
+        stv = target.fields[ctx.field_index("Peer", "peer_status")]
+        is_conn = z3.BoolVal(stv.variant == "Connected") if stv.variant is not None else (stv.discr.bv == conn)
+        r, m = ex.model_for(o.pc, is_conn)
+        v.queries += 1
+        if r == z3.sat:
+            L.fail_structural(v, o, "after handle_new_peer the peer entry is marked Connected although no handshake has taken place on the new connection (%s entry)" % ("newly inserted" if ins else "surviving static"))
+        elif r == z3.unsat:
+            n += 1
+        else:
+            return v.undecided("solver: no verdict")
+    v.covers_total += 1
+    v.covers_sat += 1 if n else 0
